@@ -129,12 +129,12 @@ Section Reactor.
           end
       end.
 
-    (* startup: the callWhenRunning hooks, while the reactor is still running *)
+    (* startup: ALL the callWhenRunning hooks ('after startup' triggers) fire, in registration order, whatever
+       crash() did meanwhile - as in the real reactor, where only the main loop looks at `running` *)
     Fixpoint run_hooks (hs : list A) (w : W) : W :=
       match hs with
       | [] => w
-      | h :: rest =>
-          if running (get w) then run_hooks rest (exec_hook h (set (set_hooks rest (get w)) w)) else w
+      | h :: rest => run_hooks rest (exec_hook h (set (set_hooks rest (get w)) w))
       end.
 
     Definition reactor_run (fuel : nat) (w : W) : loop_end * W :=
